@@ -41,7 +41,8 @@ Theorem C04_flags_irrelevant :
     exit (run_lint c x) = exit (run_lint c' x) /\ summary (run_lint c x) = summary (run_lint c' x).
 Proof. exact flags_irrelevant. Qed.
 
-(* the -json document: same counts as the summary, lists exactly the non-ignored diagnostics;
+(* the -json document: same counts as the summary; it lists exactly the non-ignored diagnostics, each
+   with its effective severity, so counting the entries by severity gives the same three counts;
    after a syntax error it carries the parse error and the exit status is 1 *)
 Theorem C04_json_doc_spec :
   forall c x,
@@ -49,8 +50,10 @@ Theorem C04_json_doc_spec :
     (json c = true -> parse_error_main x = false -> parse_error_included x = false ->
      exists res, doc (run_lint c x) = Some res /\
        summary (run_lint c x) = Some (res_errors res, res_warnings res, res_infos res) /\
-       res_lint res = filter (fun d => negb (sev_eqb (effective c d) SevIgnore)) (diags x) /\
+       res_lint res = listed c (diags x) /\
        List.length (res_lint res) = res_errors res + res_warnings res + res_infos res /\
+       (forall s, s <> SevIgnore ->
+          List.length (filter (fun e => sev_eqb (snd e) s) (res_lint res)) = count c s (diags x)) /\
        res_parse res = 0) /\
     (json c = true -> parse_error_main x = true \/ parse_error_included x = true ->
      exists res, doc (run_lint c x) = Some res /\ res_parse res = 1 /\ res_lint res = [] /\
